@@ -166,8 +166,17 @@ func (ex *exec) bmarshalStruct(u *types.Struct, st structure, n *jnode) {
 			}
 			ex.unsupported("bson inline of non-struct field %s", f.Name())
 		}
-		if bf.omitEmpty && ex.isEmptyValue(ft, st[i]) {
-			continue
+		if bf.omitEmpty {
+			// exact for BSON (the driver decodes into the caller's struct without zeroing it,
+			// so whether a field is present matters): a symbolic scalar is omitted exactly when
+			// it is zero - decided by the solver
+			if sv, isSym := st[i].(symv); isSym {
+				if sv.T.S.K == 'V' && ex.decide(tEq(sv.T, tBV(sv.T.S.W, 0))) {
+					continue
+				}
+			} else if ex.isEmptyValue(ft, st[i]) {
+				continue
+			}
 		}
 		n.keys = append(n.keys, bf.name)
 		n.vals = append(n.vals, ex.bmarshal(ft, st[i]))
